@@ -149,9 +149,12 @@ Definition emit (s : state) (o : obs) := {| calls := calls s; holder := holder s
   last_ts := last_ts s; clk := clk s; connected := connected s; routes := routes s; st_pos := st_pos s;
   st_cur := st_cur s; log := log s ++ [o] |}.
 
-Definition status (s : state) (id : nat) : option cstatus := option_map c_st (nth_error (calls s) id).
+Definition stat (l : list call) (id : nat) : option cstatus := option_map c_st (nth_error l id).
+Definition status (s : state) (id : nat) : option cstatus := stat (calls s) id.
+Definition with_status (x : cstatus) (c : call) : call :=
+  {| c_kind := c_kind c; c_prefix := c_prefix c; c_auto := c_auto c; c_st := x |}.
 Definition set_status (s : state) (id : nat) (x : cstatus) : state :=
-  set_calls s (upd (calls s) id (fun c => {| c_kind := c_kind c; c_prefix := c_prefix c; c_auto := c_auto c; c_st := x |})).
+  set_calls s (upd (calls s) id (with_status x)).
 
 Fixpoint remove_id (id : nat) (l : list nat) : list nat :=
   match l with [] => [] | x :: r => if Nat.eqb x id then remove_id id r else x :: remove_id id r end.
